@@ -117,6 +117,34 @@ def conds_hold(T, conds, asg):
     return res
 
 
+def reduce_tag_test(c):
+    """`if let Kind::A = (if p { Kind::A } else { Kind::B })` (also through a helper that classifies into a local enum) is
+    the test `p` itself (or its negation): returns (condition, negated) or None."""
+    c = vt.unvar(c)
+    if not (isinstance(c, dict) and c.get('k') in ('iflet', 'matches') and len(c.get('variants', [])) == 1 and not c.get('guard')):
+        return None
+    want = str(c['variants'][0]).split('::')[-1].split('(')[0]
+    sc = vt.unvar(c.get('scrut'))
+    if not (isinstance(sc, dict) and sc.get('k') == 'cond'):
+        return None
+
+    def tag(x):
+        x = vt.unvar(x)
+        if isinstance(x, dict) and x.get('k') == 'path':
+            return str(x.get('text', '')).replace(' ', '').split('::')[-1]
+        if isinstance(x, dict) and x.get('k') == 'call' and x.get('recv') is None and not x.get('args'):
+            return str(x.get('f', '')).replace(' ', '').split('::')[-1]
+        return None
+    tt, te = tag(sc.get('t')), tag(sc.get('e'))
+    if tt is None or te is None or tt == te:
+        return None
+    if tt == want:
+        return sc['c'], False
+    if te == want:
+        return sc['c'], True
+    return None
+
+
 def normalize_frames(frames):
     """`match opt { Some(x) => .., None => .. }` arms are the same tests as `if let Some(x) = opt` / its else branch:
     arm frames over exactly Some / exactly None become if-frames on `opt.is_some()`."""
